@@ -33,12 +33,20 @@ def main():
     ap.add_argument('--budget', default=None)
     ap.add_argument('--no-tests', action='store_true')
     ap.add_argument('--props', default=None, help='comma list; default: meta.json property')
+    ap.add_argument('--scratch', action='store_true', help='apply to a scratch copy of /repo under /tmp instead of /repo itself')
     args = ap.parse_args()
     d = os.path.abspath(args.dir)
     meta = json.load(open(os.path.join(d, 'meta.json')))
     props = (args.props.split(',') if args.props else [meta['property']])
+    global REPO
+    scratch = None
+    if args.scratch:
+        scratch = tempfile.mkdtemp(prefix='seeded-scratch-')
+        shutil.rmtree(scratch)
+        subprocess.run(['git', '-C', '/repo', 'worktree', 'add', '-q', '--detach', scratch, 'HEAD'], check=True)
+        REPO = scratch
     if sh(['git', '-C', REPO, 'status', '--porcelain']).stdout.strip():
-        print('refusing: /repo has uncommitted changes')
+        print('refusing: %s has uncommitted changes' % REPO)
         return 2
     res = {'id': os.path.basename(d), 'property': meta['property']}
     tmp = tempfile.mkdtemp(prefix='seeded-run-')
@@ -61,7 +69,7 @@ def main():
                 if args.budget:
                     env['VERIF_BUDGET_S'] = args.budget
                 t0 = time.time()
-                c = sh(['timeout', '-k', '5', '1800', os.path.join(HERE, 'check'), p, '--tier', args.tier], env=env)
+                c = sh(['timeout', '-k', '5', '1800', os.path.join(HERE, 'check'), p, '--tier', args.tier, '--root', REPO], env=env)
                 viol = [l for l in c.stdout.splitlines() if l.startswith('VIOLATION')]
                 cls = sorted(set(l.split()[1] for l in c.stdout.splitlines() if l.startswith('violation class=')))
                 first = [l for l in c.stdout.splitlines() if l.startswith('violation class=')][:1]
@@ -77,7 +85,11 @@ def main():
         res['repo_clean_after'] = not sh(['git', '-C', REPO, 'status', '--porcelain']).stdout.strip()
     finally:
         shutil.rmtree(tmp, ignore_errors=True)
+        if scratch:
+            subprocess.run(['git', '-C', '/repo', 'worktree', 'remove', '--force', scratch])
     print(json.dumps(res, indent=1))
+    if scratch:
+        return 0 if all(res.get('check_' + p, {}).get('exit') == 1 for p in props) else 1
     meta['what_i_ran'] = ['git -C /repo apply seeded/%s/patch.diff' % res['id'],
                           'cd /repo && /venv/bin/python -m pytest -q -p no:cacheprovider --timeout=120 tests',
                           '/venv/bin/python seeded/%s/demo.py   (exit 1 expected with the patch)' % res['id']] + \
@@ -85,7 +97,8 @@ def main():
                          ['git -C /repo checkout -- .', '/venv/bin/python seeded/%s/demo.py   (exit 0 expected without it)' % res['id']]
     meta['result'] = res
     meta['caught_by'] = [p for p in props if res.get('check_' + p, {}).get('exit') == 1]
-    json.dump(meta, open(os.path.join(d, 'meta.json'), 'w'), indent=1)
+    if not scratch:
+        json.dump(meta, open(os.path.join(d, 'meta.json'), 'w'), indent=1)
     caught = all(res.get('check_' + p, {}).get('exit') == 1 for p in props)
     return 0 if caught else 1
 
